@@ -4,13 +4,26 @@ from gen.util import kvs, tparse
 
 # ----------------------------------------------------------------------------- configuration
 
+# a configured delay that cannot be added to an `Instant` (`max` = Duration::MAX, `smax` = Duration::from_secs(u64::MAX),
+# `hmax` = Duration::from_secs(1 << 63)): tokio's `sleep` saturates the deadline — the timer is never due. Larger than
+# any instant of a case, so "started less than delay(n) after its predecessor" holds of every start.
+NEVER = 10 ** 40
+NEVER_TOKENS = ("max", "smax", "hmax")
+
+
+def _delay_tok(x, mul):
+    if x in NEVER_TOKENS:
+        return NEVER
+    return int(x) * mul if x.isdigit() else None
+
+
 def delay_fn(cfg):
     """header -> (max, delay(n) in MICROSECONDS for attempt number n >= 1), exactly as the adapter builds the layer
-    (`unit=us`: d and ds are microseconds; default milliseconds)"""
+    (`unit=us`: d and ds are microseconds; default milliseconds; NEVER for max/smax/hmax)"""
     mx = max(int(cfg.get("max", "2")), 1)
     mul = 1 if cfg.get("unit", "ms") == "us" else 1000
-    d = int(cfg.get("d", "0")) * mul
-    ds = [int(x) * mul for x in cfg.get("ds", "").split(",") if x.isdigit()]
+    d = _delay_tok(cfg.get("d", "0"), mul) or 0
+    ds = [v for v in (_delay_tok(x, mul) for x in cfg.get("ds", "").split(",")) if v is not None]
     kind = cfg.get("kind", "fixed")
 
     def delay(n):
@@ -23,6 +36,8 @@ def delay_fn(cfg):
 
 
 def us_text(us):
+    if us >= NEVER:
+        return "(a duration no Instant can be moved by: never due)"
     return "%dms" % (us // 1000) if us % 1000 == 0 else "%dus" % us
 
 
@@ -66,7 +81,40 @@ def gen(rng, tier):
     mx = rng.choice([1, 2, 2, 2, 3, 3, 3, 4, 5])
     r = rng.random()
     base = rng.choice([1, 5, 10, 10, 20, rng.randint(2, 40)])
-    if rng.random() < 0.16:
+    BIG = 10 ** 6            # planning: a delay of BIG ms or more is never waited for in a case
+    slow = False
+    if rng.random() < 0.10:
+        # delays no `Instant` can be moved by (`Duration::MAX` as "never again"), fixed or for any attempt of a
+        # per-attempt function, and very long representable ones (30 years, u64::MAX ms): never due
+        tok = lambda: rng.choice(["max", "max", "smax", "hmax", "max", "946080000000", "18446744073709551615"])
+        us = rng.random() < 0.2
+        if r < 0.12:
+            t = tok()
+            header = "hedge max=%d d=%s kind=fixed" % (mx, t)
+            lst, dflt = [], t
+        else:
+            n = rng.randint(0, mx)
+            lst = [str(rng.choice([0, base, base, 2 * base, rng.randint(1, 30)])) for _ in range(n)]
+            if lst and rng.random() < 0.75:
+                lst[0] = str(max(int(lst[0]), 1))
+            dflt = str(rng.choice([0, base, rng.randint(1, 20)]))
+            k = rng.choice([1, 1, 1, 2])
+            for _ in range(k):
+                # any attempt number, the entries beyond the list included; the later hedges a little more often
+                pos = rng.choice([rng.randint(0, mx - 1), rng.randint(1, max(mx - 1, 1))])
+                if pos < len(lst):
+                    lst[pos] = tok()
+                else:
+                    dflt = tok()
+            header = "hedge max=%d kind=fn ds=%s d=%s" % (mx, ",".join(lst), dflt)
+        if us:
+            header += " unit=us"
+        val = lambda x: BIG if not x.isdigit() or int(x) >= BIG else ((int(x) + 999) // 1000 if us else int(x))
+        ds = [val(x) for x in lst] + [val(dflt)] * 8
+        if us and ds[0] == 0 and lst and lst[0] != "0":
+            ds[0] = 1
+        slow = rng.random() < 0.6      # attempts that outlive the starts of the hedges before the never-due one
+    elif rng.random() < 0.16:
         # microsecond-resolution delays (`unit=us`): the timer fires at the next whole millisecond
         if r < 0.45:
             du = max(1, _us_delay(rng, base)) if rng.random() < 0.9 else 0
@@ -111,7 +159,10 @@ def gen(rng, tier):
     # expected start offsets of attempt i if the caller is polled promptly
     offs = [0]
     for i in range(1, mx):
+        if not parallel and ds[i - 1] >= BIG:
+            break                          # never due: this attempt and the later ones are not started
         offs.append(offs[-1] + (0 if parallel else ds[i - 1]))
+    ds = [x if x < BIG else rng.choice([base, 3 * base, 50]) for x in ds]     # from here on: planning values only
     ops = []
     marks = []
     now = 0
@@ -131,6 +182,8 @@ def gen(rng, tier):
                 nxt = (ds[i] if not parallel and i + 1 < mx else base)
                 lat = rng.choice([0, 1, max(0, nxt - 1), nxt, nxt + 1, 2 * nxt, rng.randint(0, 3 * base + 5),
                                   rng.randint(0, 120), rng.randint(0, 120)])
+            if slow and rng.random() < 0.8:
+                lat += offs[-1] - off + rng.choice([1, base, 2 * base])
             if all_panic:
                 o = "panic"
             elif fail_heavy:
@@ -359,6 +412,30 @@ def mon_success_at_once(case, lines, meta):
     return None
 
 
+def mon_resolves_not_panics(case, lines, meta):
+    """"... resolves with the first successful attempt's response ...; all-attempts-failed only when all attempts have
+    failed": the response future itself does not die. `result c panic` is what the caller sees when polling the call
+    panics; the only way the crate's own code gets there is the drain phase's `expect` when every attempt of the call
+    panicked and none sent anything. A call one of whose attempts does not end in a panic (it succeeds, fails with an
+    error, or is still running or not even started) must not resolve by panic."""
+    v = View(case, lines, meta)
+    for c, (rpos, rt, text) in v.result.items():
+        if text != "panic":
+            continue
+        at = [a for a in v.attempts(c) if a[1] < rpos]
+        for (i, pos, t, k, (lat, out)) in at:
+            if out != "panic":
+                what = ("succeeds at t=%d" % (t + lat)) if out == "ok" else \
+                       ("never completes" if out == "never" else "fails with %s at t=%d" % (out, t + lat))
+                return ("request %s: polling the call panicked at t=%d although attempt %d (serial %s, started t=%d) %s: "
+                        "the caller never gets %s" % (c, rt, i, k, t, what,
+                                                      "that response" if out == "ok" else "a result of its attempts"))
+        if len(at) < v.max and not v.parallel:
+            return ("request %s: polling the call panicked at t=%d with %d of %d attempts started (latency mode)"
+                    % (c, rt, len(at), v.max))
+    return None
+
+
 def mon_all_failed(case, lines, meta):
     v = View(case, lines, meta)
     for c, (rpos, rt, text) in v.result.items():
@@ -434,8 +511,15 @@ def transitions(case, lines, meta=None):
     listed = set()    # (c, attempt number) of the hedges whose clone has a readiness plan entry
     if 0 < delay(1) < 1000 and mx > 1:
         tags.append("mode-latency-sub-ms")
+    nevers = [n for n in range(1, mx) if delay(n) >= NEVER]
+    if nevers:
+        tags.append("delay-never-due-ignored-parallel" if parallel else "delay-never-due")
+    nstarted = {}     # c -> number of attempts started so far
 
     def started(c, n):
+        nstarted[c] = max(nstarted.get(c, 0), n + 1)
+        if not parallel and n >= 1 and n + 1 < mx and delay(n + 1) >= NEVER and c not in resolved:
+            tags.append("timer-armed-never-due")           # re-armed, by a hedge that was started, with such a delay
         if parallel:
             tags.append("start-parallel")
         else:
@@ -465,6 +549,7 @@ def transitions(case, lines, meta=None):
             owner[w[2]] = (w[1], n)
             if n == 0:
                 tags.append("start-primary")
+                nstarted[w[1]] = max(nstarted.get(w[1], 0), 1)
             elif (w[1], n) in waiting:
                 del waiting[(w[1], n)]
                 tags.append("call-after-warm-up")
@@ -497,6 +582,8 @@ def transitions(case, lines, meta=None):
                     tags.append("result-ok-after-error")
                 if any(c == w[1] for (c, _) in waiting):
                     tags.append("result-ok-while-clone-warming")
+                if not parallel and nstarted.get(w[1], 0) in nevers:
+                    tags.append("result-ok-while-timer-never-due")
             elif w[2].startswith("err:all_failed"):
                 tags.append("result-all_failed-parallel" if parallel else "result-all_failed-latency")
             elif w[2] == "panic":
@@ -527,6 +614,7 @@ SPECS = {
         "gen": gen,
         "monitors": [("c12-starts-bounded", mon_bounded), ("c12-starts-spaced", mon_spaced),
                      ("c12-first-success-wins", mon_first_success), ("c12-success-at-once", mon_success_at_once),
+                     ("c12-resolves-not-panics", mon_resolves_not_panics),
                      ("c12-all-failed-only-when-all-failed", mon_all_failed),
                      ("c12-no-late-start", mon_no_late_start), ("c12-script-and-wakeups", mon_script)],
         "transitions": transitions,
@@ -535,6 +623,8 @@ SPECS = {
                             "mode-latency-sub-ms", "start-hedge-broken-ms-delay", "clone-ready-at-once", "clone-warming",
                             "clone-never-ready", "call-after-warm-up", "call-out-of-attempt-order", "call-after-result",
                             "result-ok-while-clone-warming",
+                            "delay-never-due", "delay-never-due-ignored-parallel", "timer-armed-never-due",
+                            "result-ok-while-timer-never-due",
                             "done-ok", "done-err", "done-panic", "done-after-result", "done-tie",
                             "result-ok-primary", "result-ok-hedge", "result-ok-after-error",
                             "result-all_failed-latency", "result-all_failed-parallel", "result-panic"],
@@ -543,24 +633,27 @@ SPECS = {
         "sizes": (600, 40000),
         "rule": "seeded random op sequences (arrive/poll/drop/adv/settle) over 1..3 requests, max_hedged_attempts 1..5, fixed / zero / "
                 "immediate / per-attempt delays (a sixth of the cases with microsecond resolution: 0, 1..999 us, 1000, 1001, broken and "
-                "whole milliseconds mixed per attempt), in a quarter of the multi-attempt cases fresh clones of the inner service that "
+                "whole milliseconds mixed per attempt; a tenth with a delay no Instant can be moved by — Duration::MAX, from_secs(u64::MAX), "
+                "from_secs(1<<63) — or a very long one (30 years, u64::MAX ms), fixed or at any position of a per-attempt function, "
+                "mostly with attempts that outlive the starts of the earlier hedges), in a quarter of the multi-attempt cases fresh clones of the inner service that "
                 "are ready only after a while (before/at/after the instant an earlier attempt completes) or never, "
                 "per-attempt scripts (latency, ok/err, a share with panic/never), latencies biased to "
                 "0, delay-1, delay, delay+1 and (in a quarter of the cases) chosen so that several attempts complete at one instant; "
                 "advances land on start/completion instants -1/0/+1, late polls included; distinct = distinct implementation event log; "
                 "non-trivial = a hedge or parallel attempt was started, all-attempts-failed, a success after an error, or a completion "
                 "after the result",
-        "level_text": "Theorems TR.Props.C12.{starts_bounded,starts_bounded_trace,starts_spaced,starts_spaced_indexed,positive_delay_separates,first_success_wins,"
+        "level_text": "Theorems TR.Props.C12.{starts_bounded,starts_bounded_trace,starts_spaced,starts_spaced_indexed,positive_delay_separates,never_due_not_started,first_success_wins,"
                       "first_success_at_once,success_is_queued,all_failed_only_when_all_failed,no_late_start,no_start_when_finished,"
                       "instants_sound,log_matches_attempts,record_unique}: "
                       "for every max_hedged_attempts >= 1, every delay function in microseconds (fixed, zero, per-attempt, below the timer's "
-                      "millisecond resolution or not), every operation sequence (all poll/advance/cancel orders, any number of concurrent "
+                      "millisecond resolution or not, or not representable as a deadline at all: never due), every operation sequence (all poll/advance/cancel orders, any number of concurrent "
                       "requests), every script of latencies and outcomes and every readiness plan of the hedges' fresh clones, in the model "
                       "of execute_with_hedging; proved by an inductive per-request invariant. The model is tied to the real HedgeLayer by "
                       "line-for-line agreement of event logs on generated schedules.",
         "level_note": LEVEL_NOTE,
         "trusted": ["tokio spawn/mpsc/select!/sleep semantics as transcribed in TR.Model.Hedge (sampled by the correspondence check)",
                     "tokio timer resolution: deadlines rounded up to the millisecond (timerMs), instants are whole milliseconds in the harness",
+                    "tokio sleep(d) with now + d not representable saturates to a far future (30 years on): modelled as never due (Cfg.never); no case advances that far",
                     "order of completions / clone readiness of simultaneously elapsed timers taken from the implementation (allowed set: permutations in deadline order)",
                     "harness: clock_gettime interposition, manual poller, scripted inner service", "python diff/monitors"],
         "assumptions": ["one poll of one call future is atomic and the tasks it spawned run before the next operation (current-thread runtime)",
